@@ -208,7 +208,12 @@ EXTRA_NOTE = {
            "flavours of Kernels.Assemble(cell) are compared with the real Combiner.collect_elems() (Emit_Asm / Trace_Asm; departures are "
            "conformance notes counted in the evidence under assembly_conformance). Neutrino NC rows are also taken at a propagator ratio r/2^16 (weights far below 1e-8) and compared after exact rescaling, "
            "justified by the theorem C02_NeutrinoScaling checked by TLC at four ratios.",
-    "C11": "The arithmetic the combination is carried out with (ESFResult + - *, the numpy dot of exs.py) is specified in Result.tla and "
+    "C06": "Unordered matching scales (a ZM-VFNS card whose threshold ratios swap two scales) must be refused; the number of flavours inside "
+           "the N3LO coefficient functions of flavour-tagged massless observables is bound through the relation TaggedIsRestricted.",
+    "C17": "Predictions are taken on ESFResult and EXSResult objects, with operators in units of 1 and of 2^-40 and PDFs answering hasFlavor "
+           "with bools and with 0/1; every spelling of the evolution method must give the running of its family (exact / expanded).",
+    "C11": "The combination is also checked on PREDICTIONS (output applied to a PDF at xiR != xiF) and at two inelasticities per card. "
+           "The arithmetic the combination is carried out with (ESFResult + - *, the numpy dot of exs.py) is specified in Result.tla and "
            "bound by ~2 200 TLC-emitted programs executed by the real class; values and key sets are verdicts, dict order / error propagation "
            "/ array sharing are conformance notes.",
     "C14": "Part of the recorded plans is drawn by TLC itself (Emit_C14, plan space of MC_RunLoop on the real universe); a second batch "
